@@ -103,6 +103,13 @@ CHECKS["C04"] = dict(
     technique="forward must-dataflow (guard dominance at Miller-loop call sites, unit-value tokens) + sibling agreement over the clang CFG",
 )
 
+CHECKS["C01"] = dict(
+    text="Static decision of the representation clauses of C01 ('in a normalised representation (no leading zero digits, zero is non-negative), and leaves its inputs unchanged') over every function of src/bn - public operations and static helpers, all algorithm variants, since none is stripped from the build: forward must-dataflow over the exploded CFG with a 'normalised' token per integer parameter, voided by stores to ->used and to digits (directly or through a low-level routine handed ->dp) and restored by bn_trim or any bn_* operation writing the integer, shows that every normal return hands back normalised outputs (NF); the same with stores of a possibly negative sign shows that a zero result is never left negative (NF-SIGN: the suite tests zero with bn_is_zero, which ignores the sign); where the digit count of an integer that keeps its value is raised, the digits brought into use are cleared under the growth test (GROW-CLEAR: digits beyond the count are unspecified); parameter-write summaries over the call graph show that const inputs are never stored through, also via casts (CONST-IN). That the digits are the mathematical result - carry chains, Knuth D quotient correction, Comba columns, Karatsuba splits, aliasing of digit vectors - quantifies over operand values and is not decided.",
+    design_ref="DESIGN.md section 3 (C01)",
+    note="Trusted: clang parser/CFG, extractor, the assumption that integer parameters are normalised on entry, the table of outputs that are normal by construction (bn_zero, bn_set_dig, bn_set_2b, bn_dbl, bn_set_bit; one reason each in rules/c01.py), the table of bn_* functions that do not give their first argument a value. NF-SIGN is decided in the anchored files only (a constant negative sign stored into a provably non-zero recoding limb in bn_rec_frb is outside what the rule can see). Validated on every run by miniatures in sa/selftest/c01.c.",
+    technique="forward must-dataflow (must-pass-through of a normaliser after the last raw write) + parameter-write summaries over the clang CFG/call graph",
+)
+
 NOT_APPLICABLE = {
     "C10": "every clause is an equality of ring elements for all operand values; no guard, ordering or ownership structure whose violation is visible in the code's shape, and lazy-reduction bounds need a relational numeric domain that goto-analyzer's intervals cannot carry across the *_low calls",
     "C11": "group law, [k]Q, Frobenius eigenvalue and cofactor image are algebraic identities over runtime values; the structural clauses (decoders, buffers, regularity) of the ep2..ep8 siblings are decided under C07, C08 and C20",
